@@ -6,6 +6,7 @@ import GivaroModel.Model.ModRingHist
 import GivaroModel.Model.ModRingRecInt
 import GivaroModel.Model.ModRingExt
 import GivaroModel.Model.ModRingLog16
+import GivaroModel.Model.ModRingInit
 import GivaroModel.Spec.ModRingSpec
 -- @driver-mode modring Driver.ModRing.modringLine
 -- @driver-mode modinit Driver.ModRing.modinitLine
@@ -367,14 +368,70 @@ def srcBits : String → Nat
 def srcSigned (s : String) : Bool := s.startsWith "s"
 def srcIsInt (s : String) : Bool := s.startsWith "s" || s.startsWith "u"
 
-/-- the model's `init` (only the overloads of `Model/Init`-style functions in Model/ModRing.lean) -/
+/-- smallest generator of (Z/p)^* for a prime `p` (search by element order; used for small tables only) -/
+def orderOf (g p : Int) (fuel : Nat) : Nat :=
+  let rec go : Nat → Int → Nat → Nat
+    | 0, _, n => n
+    | f + 1, acc, n => if acc == 1 then n else go f ((acc * g) % p) (n + 1)
+  go fuel (g % p) 1
+def findGen (p : Int) : Int :=
+  if p ≤ 2 then 1 else
+  ((List.range p.toNat).drop 2).foldl (fun (best : Int) (g : Nat) => if best != 0 then best else
+    if orderOf (g : Int) p p.toNat == (p - 1).toNat then (g : Int) else 0) 0
+
+/-- the model's `init` for a source type (`src`) and an integer-valued source `x`
+    (`f64h`: the double `x/2`, truncated where the overload goes through an integer) -/
 def initModel (f : Fam) (src : String) (p x : Int) : MRes :=
+  let isF := src == "f32" || src == "f64"
   match f with
-  | .int k => if srcIsInt src then .val (k.initInt (srcBits src) (srcSigned src) p x) else .noModel
-  | .balI k => if src == "s64" || src == "u64" then
-      (if k.w = 32 then .val (k.initWide (srcSigned src) p x) else .noModel) else .noModel
+  | .int k =>
+    if srcIsInt src then .val (k.initInt (srcBits src) (srcSigned src) p x)
+    else if src == "Z" then .val (k.initZ p x)
+    else if isF then .val (k.initFloat p x)
+    else if src == "f64h" then .val (k.initFloat p (Int.tdiv x 2))
+    else .noModel
+  | .flt k =>
+    -- sizeof(Source) ≥ sizeof(Storage_t): 32-bit storage for float, 64-bit for double
+    let wide := if k.ms = 24 then srcBits src ≥ 32 else srcBits src ≥ 64
+    if src == "Z" then ofOpt (k.initZ p x)
+    else if isF then ofOpt (k.initFloat p x)
+    else if srcIsInt src then
+      (if wide then (if srcSigned src then ofOpt (k.initSInt (srcBits src) p x) else ofOpt (k.initUInt (srcBits src) p x))
+       else ofOpt (k.initSmall p x))
+    else .noModel
+  | .balF k =>
+    -- overloads of their own: float ring int32/uint32/int64/uint64 ; double ring int64/uint64
+    let own := if k.mb = 24 then srcBits src ≥ 32 else srcBits src ≥ 64
+    if src == "Z" || isF then ofOpt (k.initS p x)
+    else if srcIsInt src then
+      (if own then (if srcSigned src then ofOpt (k.initS p x) else ofOpt (k.initU p x)) else ofOpt (k.initSmall p x))
+    else .noModel
+  | .ext k =>
+    let own := if k.mant = 24 then srcBits src ≥ 32 else srcBits src ≥ 64
+    if src == "Z" then ofOpt (k.initZ p x)
+    else if isF then ofOpt (k.initFloat p x)
+    else if srcIsInt src then
+      (if own then (if srcSigned src then ofOpt (k.initSInt (srcBits src) p x) else ofOpt (k.initUInt p x)) else ofOpt (k.initSmall p x))
+    else .noModel
+  | .balI k =>
+    -- overloads of their own: int32 ring float/double/int64/uint64/uint32(→uint64)/Integer ; int64 ring float/double/uint64/Integer
+    if src == "Z" || isF then .val (k.initS p x)
+    else if src == "u64" || (k.w = 32 && src == "u32") then .val (k.initU p x)
+    else if k.w = 32 && src == "s64" then .val (k.initS p x)
+    else if srcIsInt src then .val (k.initSmall p x)
+    else .noModel
+  | .zz => if src == "f64h" then .noModel else .val (ZMod'.init p x)
   | .ru k => if src == "Z" then .val (k.initZ p x) else if srcIsInt src then .val (k.initInt p x) else .noModel
+  | .log16 =>
+    if p > 300 then .noModel else
+    let T := L16.ofGen p (findGen p)
+    if src == "Z" then .val (T.val (T.initZ x))
+    else if src == "u16" || src == "u32" || src == "u64" then .val (T.val (T.initU x))
+    else if src == "s16" || src == "s32" || src == "s64" then .val (T.val (T.initS x))
+    else if isF then .val (T.val (T.initS (Int.tmod x p)))     -- init(double): init((int64_t) fmod(i, p))
+    else .noModel
   | _ => .noModel
+  where small := false
 
 def c04Verdict (f : Fam) (op : String) (m : Int) (a : Array Int) (res : List String) (line : String) : String :=
   let bal := f.balanced
@@ -393,10 +450,30 @@ def c04Verdict (f : Fam) (op : String) (m : Int) (a : Array Int) (res : List Str
     match parseAll res with
     | some [c, ch] => if c == m && ch == m then "OK" else bad "SPEC" "-"
     | _ => "BAD result | " ++ line
+  else if op == "assign" then
+    -- the constants of a ring assigned from a ring with modulus m (destination built with modulus a[0], or default-constructed):
+    -- zero one mOne init(-1) isMOne(init(-1)) maxElement minElement cardinality
+    match parseAll res with
+    | some [z, o, mo, im1, ism, mx, mn, c] =>
+      let wantMax := if bal then m / 2 else m - 1
+      let wantMin := if bal then m / 2 - m + 1 else 0
+      let specOk := z == 0 && o == canon bal m 1 && mo == canon bal m (-1) && im1 == canon bal m (-1) && ism == 1
+        && mx == wantMax && mn == wantMin && c == m
+      let modelOk := match f with
+        | .int k =>
+          let ob := k.assign (if a.getD 0 0 == 0 then k.default else k.construct (a.getD 0 0)) (k.construct m)
+          ob.zero == z && ob.one == o && ob.mOne == mo && ob.p == c
+        | _ => true
+      if specOk && modelOk then "OK" else bad (if !specOk && !modelOk then "BOTH" else if !specOk then "SPEC" else "MODEL") "-"
+    | _ => if res.contains "NAI" then bad "SPEC" "-" else "BAD result | " ++ line
   else if op.startsWith "init_" then
     let src := (op.drop 5).toString
     if res == ["NOSRC"] then "PRE" else
     let x := a.getD 0 0
+    -- a non-integer double: only the integral rings define the result through an integer conversion (truncation);
+    -- for the other rings a non-integer source is outside the property (the element would not be an integer)
+    if src == "f64h" && x % 2 != 0 && (match f with | .int _ => false | _ => true) then "PRE" else
+    let x := if src == "f64h" then (match f with | .int _ => x | _ => x / 2) else x
     -- Montgomery<int32_t>: sources without an overload of their own go through the template whose header comment
     -- states "T is supposed to be fit into an Element" (uint32_t): a float beyond 2^32 is outside that contract
     if (match f with | .mont => src == "f32" && (x ≥ 4294967296 || x ≤ -4294967296) | _ => false) then "PRE" else
@@ -405,7 +482,7 @@ def c04Verdict (f : Fam) (op : String) (m : Int) (a : Array Int) (res : List Str
     | [r] =>
       match parseHexInt r with
       | some impl =>
-        let specOk := impl == canon bal m x
+        let specOk := impl == canon bal m (if src == "f64h" then (match f with | .int _ => Int.tdiv x 2 | _ => x) else x)
         let modelOk := match mres with | .noModel => true | r => r == .val impl
         if specOk && modelOk then "OK"
         else bad (if !specOk && !modelOk then "BOTH" else if !specOk then "SPEC" else "MODEL") (showM mres)
@@ -418,6 +495,7 @@ def c04Verdict (f : Fam) (op : String) (m : Int) (a : Array Int) (res : List Str
     -- the lift is the element's value; a target type that cannot hold it is outside the property
     if (match tyRange dst with | some (l, h) => e < l || e > h | none => false) then "PRE" else
     if dst == "f64" && (e > 9007199254740992 || e < -9007199254740992) then "PRE" else
+    if dst == "f32" && (e > 16777216 || e < -16777216) then "PRE" else
     match res with
     | [r] =>
       match parseHexInt r with
